@@ -15,6 +15,8 @@ GROUPS = [
     R('rep_extrema_lattice', 'get_extrema', 'h_rep_extrema', unwind=3, apply_loop_contracts=False, loop_contracts_for=[],
       defines={'VF_LATTICE_ONLY': 1}, timeout=900,
       bound='Rectangular and Regular kinds: loop-free, all column/row counts including 0 and 1'),
+    R('rep_extrema_explicit', 'get_extrema', 'h_rep_extrema', defines={'VF_EXPLICIT_KINDS': 1}, timeout=1500, disjoint_unions=['Repetition'],
+      bound='ExplicitX and ExplicitY kinds: coordinate lists of any length (loop contracts, ghost index + ghost witnesses)'),
     # rep_offsets_rect / rep_offsets_regular (get_offsets, lattices <= 3 x 3; contract in contracts/repetition.ct):
     # out of memory (writes through a double* view of the Vec2 array at loop-dependent offsets); not claimed.
     # rep_extrema_explicit (bounded ExplicitX/Y, <= 3 coordinates): CBMC reports postcondition failures whose printed
